@@ -23,7 +23,7 @@ LEVEL = "exploration"
 RULE = ("scenario = 1..3 producers x 1..10 items each (typed messages of the four envelope classes + legacy class, plain dicts, "
         "pre-serialised strings, unserialisable objects) x child read behaviour (eager/slow/stall windows) x pipe capacity x close instant; "
         "non-trivial = a send blocked on back-pressure, or an unserialisable item preceded a serialisable one, or >= 2 producers interleaved")
-PROBES = ["frame_over_64k", "inbound_batch_rejected_during_writes", "stdin_send_blocked", "unserialisable_before_valid", "producers_interleaved", "payload_with_line_breaks", "closed_while_backlog"]
+PROBES = ["value_rejected_by_fast_json_backend", "frame_over_64k", "inbound_batch_rejected_during_writes", "stdin_send_blocked", "unserialisable_before_valid", "producers_interleaved", "payload_with_line_breaks", "closed_while_backlog"]
 TIERS = {"quick": {"runs": 15000, "wall": 45.0}, "thorough": {"runs": 1000000, "wall": 560.0}}
 ASSUMPTIONS = [
     "order 'sent' = order in which the (real, FIFO) write stream accepted the items",
@@ -60,6 +60,9 @@ def _gen_item(rng, k):
         o = {"jsonrpc": "2.0", "id": mid, "error": {"code": -32000 - k, "message": t or "m", "data": {"k": k}}}
     if rng.random() < 0.06:
         it["big"] = rng.choice([70_000, 140_000, 300_000])
+    if rng.random() < 0.12 and shape in ("dict", "str_compact", "str_pretty", "str_trailing_nl"):
+        # only for shapes encoded by the library's own JSON layer (typed models go through pydantic, which has its own limits)
+        it["exotic"] = rng.choice(["int_2_64", "int_neg_big", "int_1e30", "deep_nesting"])
     it["obj"] = o
     if shape == "str_compact":
         it["ensure_ascii"] = rng.random() < 0.3
@@ -102,6 +105,8 @@ def simplify(scn):
     for i, it in enumerate(scn["items"]):
         if it.get("big"):
             c = copy.deepcopy(scn); del c["items"][i]["big"]; yield c
+        if it.get("exotic"):
+            c = copy.deepcopy(scn); del c["items"][i]["exotic"]; yield c
     if scn["fault"]:
         c = copy.deepcopy(scn); c["fault"] = None; yield c
     if scn["read_mode"] != "eager":
@@ -144,6 +149,16 @@ def _materialise(it):
     if it.get("big"):
         o = copy.deepcopy(o)
         o["pad"] = ("é€\u2028" * (it["big"] // 3))[: it["big"]]
+    if it.get("exotic"):
+        # legal JSON that the optional fast encoder (orjson) refuses, so the stdlib fallback path is taken
+        o = copy.deepcopy(o)
+        if it["exotic"] == "deep_nesting":
+            v = "leaf"
+            for _ in range(300):
+                v = [v]
+            o["x_deep"] = v
+        else:
+            o["x_int"] = {"int_2_64": 2 ** 64, "int_neg_big": -(2 ** 63) - 1, "int_1e30": 10 ** 30}[it["exotic"]]
     if sh == "dict":
         return copy.deepcopy(o), o
     if sh == "str_compact":
@@ -321,6 +336,8 @@ def execute(scn: dict) -> dict:
             V("framing", "rejection-line-count", f"{len(scn['inbound_batches'])} server batches arrived but {rejections} -32600 lines reached the child")
     if any(it.get("big") for it in accepted):
         probe("frame_over_64k")
+    if any(it.get("exotic") and it["shape"] != "unser" for it in accepted):
+        probe("value_rejected_by_fast_json_backend")
     for ln in lines:
         if ln == "" and any(it["shape"] == "str_trailing_nl" for it in accepted):
             continue  # a blank line after a string that already ended in a newline carries no message (NDJSON readers skip it)
